@@ -12,7 +12,7 @@
 From Coq Require Import ZArith List Bool String.
 From BB Require Import Base.PyBase Model.Items Spec.Utf8 Spec.Data.
 From BB Require Import Proofs.DataInt Proofs.DataUtf8 Proofs.DataSizes Proofs.DataMain.
-From BB Require Import Model.Passes Gen.Sizes Proofs.SizesTable.
+From BB Require Import Model.Passes Gen.Sizes Proofs.SizesTable Model.Lexer Model.Parser Proofs.StringLine.
 Import ListNotations.
 Open Scope Z_scope.
 
@@ -98,6 +98,16 @@ Theorem C10_string : forall (l : line) (bs : list Z),
   data_passes [(l, IString bs)] = Passes.Done [(l, Passes.CBytes bs)].
 Proof. exact string_passes. Qed.
 Print Assumptions C10_string.
+
+(* ... and from the SOURCE LINE: for plain ASCII text without a backslash, the line `string <text>` is lexed (lexer model:
+   special lexing, nothing inside the text is split, stripped or read as a comment) to ["string"; text], parsed to a String item,
+   and the data passes emit exactly the character codes of the text (CFill: the model's run-length form of a long run) *)
+Theorem C10_string_line : forall (l : line) (t : string), forallb StringLine.plain_char (chars t) = true ->
+  Lexer.lex_tokens (String.append "string " t) = Some ["string"%string; t] /\
+  exists it c, Parser.parse_item l ["string"%string; t] = Parser.FOk it /\ data_passes [(l, it)] = Passes.Done [(l, c)] /\
+               StringLine.chunk_bytes c = Some (map zc (chars t)).
+Proof. exact StringLine.string_line_bytes. Qed.
+Print Assumptions C10_string_line.
 
 (* include_bytes: emitted (by reference: CFile path size) only if the file that is opened at resolve time has
    exactly the size recorded by the reader; no file -> OSError, other size -> AssertionError *)
